@@ -1,7 +1,15 @@
 /-
   C19 — results depend only on the input: no hidden state or ambient dependence.
+  Arithmetic part: the v3 scores do not depend on how `decimal` rounds its two inexact operations
+  (the powers `** 15` / `** 13`), under any rounding mode at any precision ≥ 28.
 -/
 import Cvss.Model.Any
+import Cvss.Spec.V3
+import Cvss.Lemmas.V3
+import Cvss.Lemmas.Robust
+import Cvss.Props.C19Tables
+import Cvss.Props.C19Tables0
+import Cvss.Props.C19Tables1
 namespace Cvss.Props.C19
 open Cvss Cvss.Model
 
@@ -14,5 +22,209 @@ theorem v2_scores_lookup_only (m m' : MMap) (h : ∀ k, lookup k m = lookup k m'
   have hn : ∀ g, V2.allND m g = V2.allND m' g := by
     intro g; simp [V2.allND, h]
   simp [V2.computeScores, V2.baseScore, V2.baseEq, V2.temporalEq, V2.impactEq, V2.adjustedImpactEq, hg, hn]
+
+/-! ### robustness of the v3 equations against the rounding of the powers
+
+In cvss3.py every `Decimal` operation is exact at 28 digits except `x ** 15` / `x ** 13` (and the few
+operations that consume their result), which only occur when (Modified) Scope is Changed.  Whatever the
+rounding mode, the computed impact differs from the exact one by far less than 10⁻⁷.  The theorems below
+show that ANY perturbation of the impact sub-score by at most 10⁻⁷ leaves the reported score unchanged:
+the exact value is never that close to a rounding boundary or to the `≤ 0` test. -/
+
+/-- an assignment whose values are legal tokens of the specification's tables -/
+def Legal3 (a : Str → Str) : Prop :=
+  (∀ p ∈ Spec.V3.weights, (lookup (a p.1) p.2).isSome) ∧
+  (a c!"PR" = c!"N" ∨ a c!"PR" = c!"L" ∨ a c!"PR" = c!"H") ∧ (a c!"S" = c!"U" ∨ a c!"S" = c!"C") ∧
+  (∀ M ∈ [c!"MAV", c!"MAC", c!"MPR", c!"MUI", c!"MS", c!"MC", c!"MI", c!"MA"],
+      a M = c!"X" ∨ (lookup (a M) ((lookup (M.drop 1) Spec.V3.weights).getD [])).isSome ∨
+      (M = c!"MPR" ∧ (a M = c!"N" ∨ a M = c!"L" ∨ a M = c!"H")) ∨ (M = c!"MS" ∧ (a M = c!"U" ∨ a M = c!"C")))
+
+
+/-! #### legal tokens have their weights in the finite lists checked in `C19Tables` -/
+
+open Cvss.Lemmas.Robust Cvss.Props.C19Tables
+
+/-- a token found in the row of `metric` has its weight among the row's values -/
+theorem w_mem_rowVals {metric t : Str}
+    (h : (lookup t ((lookup metric Spec.V3.weights).getD [])).isSome) :
+    Spec.V3.w metric t ∈ rowVals metric := by
+  unfold Spec.V3.w rowVals
+  cases hr : lookup metric Spec.V3.weights with
+  | none => rw [hr] at h; simp [lookup] at h
+  | some row =>
+    rw [hr] at h
+    simp only [Option.getD_some] at h ⊢
+    obtain ⟨v, hv⟩ := Option.isSome_iff_exists.1 h
+    rw [hv]
+    exact List.mem_map.2 ⟨(t, v), Lemmas.V3.lookup_mem hv, rfl⟩
+
+/-- the metric names of the weight table are pairwise distinct: each row is found under its name -/
+theorem weights_self :
+    Spec.V3.weights.all (fun p => decide (lookup p.1 Spec.V3.weights = some p.2)) = true := by
+  decide +kernel
+
+theorem legal_w {a : Str → Str} (ha : Legal3 a) {metric : Str}
+    (hm : metric ∈ Spec.V3.weights.map (·.1)) :
+    Spec.V3.w metric (a metric) ∈ rowVals metric := by
+  obtain ⟨p, hp, rfl⟩ := List.mem_map.1 hm
+  apply w_mem_rowVals
+  have h1 := List.all_eq_true.1 weights_self p hp
+  simp only [decide_eq_true_eq] at h1
+  rw [h1]
+  exact ha.1 p hp
+
+theorem legal_eff_w {a : Str → Str} (ha : Legal3 a) {M base : Str}
+    (hM : M ∈ [c!"MAV", c!"MAC", c!"MPR", c!"MUI", c!"MS", c!"MC", c!"MI", c!"MA"])
+    (hb : M.drop 1 = base) (hbase : base ∈ Spec.V3.weights.map (·.1)) :
+    Spec.V3.w base (Spec.V3.eff a M base) ∈ rowVals base := by
+  unfold Spec.V3.eff
+  split
+  · exact legal_w ha hbase
+  · rename_i hx
+    rcases ha.2.2.2 M hM with h | h | ⟨h, _⟩ | ⟨h, _⟩
+    · exact absurd h hx
+    · rw [hb] at h; exact w_mem_rowVals h
+    · subst h; subst hb; exact absurd hbase (by decide)
+    · subst h; subst hb; exact absurd hbase (by decide)
+
+theorem prWeight_mem {t : Str} (h : t = c!"N" ∨ t = c!"L" ∨ t = c!"H") :
+    Spec.V3.prWeight true t ∈ prVals := by
+  rcases h with h | h | h <;> subst h <;> decide +kernel
+
+theorem legal_eff_pr {a : Str → Str} (ha : Legal3 a) :
+    Spec.V3.eff a c!"MPR" c!"PR" = c!"N" ∨ Spec.V3.eff a c!"MPR" c!"PR" = c!"L" ∨
+      Spec.V3.eff a c!"MPR" c!"PR" = c!"H" := by
+  unfold Spec.V3.eff
+  split
+  · exact ha.2.1
+  · rename_i hx
+    rcases ha.2.2.2 c!"MPR" (by decide) with h | h | ⟨_, h⟩ | ⟨h, _⟩
+    · exact absurd h hx
+    · exfalso
+      have h0 : (lookup (List.drop 1 c!"MPR") Spec.V3.weights).getD [] = [] := by decide +kernel
+      rw [h0] at h
+      simp [lookup] at h
+    · exact h
+    · exact absurd h (by decide)
+
+/-- base score computed with the impact sub-score perturbed by `ε` when Scope is Changed -/
+def baseScoreP (a : Str → Str) (ε : Rat) : Rat :=
+  let iss := 1 - (1 - Spec.V3.w c!"C" (a c!"C")) * (1 - Spec.V3.w c!"I" (a c!"I")) * (1 - Spec.V3.w c!"A" (a c!"A"))
+  let changed := a c!"S" = c!"C"
+  let imp := Spec.V3.impact changed iss + (if changed then ε else 0)
+  let expl := Spec.V3.r 822 100 * Spec.V3.w c!"AV" (a c!"AV") * Spec.V3.w c!"AC" (a c!"AC") *
+      Spec.V3.prWeight changed (a c!"PR") * Spec.V3.w c!"UI" (a c!"UI")
+  if imp ≤ 0 then 0
+  else if changed then Spec.V3.roundup (min (Spec.V3.r 108 100 * (imp + expl)) 10)
+  else Spec.V3.roundup (min (imp + expl) 10)
+
+theorem baseScoreP_zero (a : Str → Str) : baseScoreP a 0 = Spec.V3.baseScore a := by
+  simp only [baseScoreP, Spec.V3.baseScore, ite_self, add_zero]
+
+/-- the Changed-scope branch of `baseScoreP`, in the shape of `Lemmas.Robust.core_robust` -/
+theorem baseScoreP_changed (a : Str → Str) (hs : a c!"S" = c!"C") (ε : Rat) :
+    baseScoreP a ε =
+      (if Spec.V3.impact true (issOf (Spec.V3.w c!"C" (a c!"C")) (Spec.V3.w c!"I" (a c!"I"))
+              (Spec.V3.w c!"A" (a c!"A"))) + ε ≤ 0 then (0 : Rat)
+       else (fun x => x) (Spec.V3.roundup (min (Spec.V3.r 108 100 *
+          (Spec.V3.impact true (issOf (Spec.V3.w c!"C" (a c!"C")) (Spec.V3.w c!"I" (a c!"I"))
+              (Spec.V3.w c!"A" (a c!"A"))) + ε +
+           explOf (Spec.V3.w c!"AV" (a c!"AV")) (Spec.V3.w c!"AC" (a c!"AC"))
+              (Spec.V3.prWeight true (a c!"PR")) (Spec.V3.w c!"UI" (a c!"UI")))) 10))) := by
+  have hd : decide (a c!"S" = c!"C") = true := decide_eq_true hs
+  unfold baseScoreP
+  simp only [hd, if_pos hs]
+  rfl
+
+/-- BASE: any perturbation |ε| ≤ 10⁻⁷ of the Changed-scope impact leaves the base score unchanged -/
+theorem v3_base_decimal_robust (a : Str → Str) (ha : Legal3 a) (ε : Rat) (hε : -(1 / 10000000) ≤ ε ∧ ε ≤ 1 / 10000000) :
+    baseScoreP a ε = Spec.V3.baseScore a := by
+  rw [← baseScoreP_zero]
+  by_cases hs : a c!"S" = c!"C"
+  · rw [baseScoreP_changed a hs ε, baseScoreP_changed a hs 0]
+    simp only [add_zero]
+    exact core_robust
+      (base_ok (legal_w ha (by decide)) (legal_w ha (by decide)) (legal_w ha (by decide))
+        (legal_w ha (by decide)) (legal_w ha (by decide)) (prWeight_mem ha.2.1) (legal_w ha (by decide)))
+      hε.1 hε.2 (fun x => x)
+  · unfold baseScoreP
+    simp only [if_neg hs]
+
+/-- environmental score with the modified impact perturbed by `ε` when Modified Scope is Changed -/
+def environmentalScoreP (minor : Nat) (a : Str → Str) (ε : Rat) : Rat :=
+  let mc := Spec.V3.eff a c!"MC" c!"C"; let mi := Spec.V3.eff a c!"MI" c!"I"; let ma := Spec.V3.eff a c!"MA" c!"A"
+  let miss := min (1 - (1 - Spec.V3.w c!"C" mc * Spec.V3.w c!"CR" (a c!"CR")) * (1 - Spec.V3.w c!"I" mi * Spec.V3.w c!"IR" (a c!"IR"))
+                      * (1 - Spec.V3.w c!"A" ma * Spec.V3.w c!"AR" (a c!"AR"))) (Spec.V3.r 915 1000)
+  let changed := Spec.V3.eff a c!"MS" c!"S" = c!"C"
+  let mimp := Spec.V3.modifiedImpact minor changed miss + (if changed then ε else 0)
+  let mexpl := Spec.V3.r 822 100 * Spec.V3.w c!"AV" (Spec.V3.eff a c!"MAV" c!"AV") * Spec.V3.w c!"AC" (Spec.V3.eff a c!"MAC" c!"AC")
+                 * Spec.V3.prWeight changed (Spec.V3.eff a c!"MPR" c!"PR") * Spec.V3.w c!"UI" (Spec.V3.eff a c!"MUI" c!"UI")
+  if mimp ≤ 0 then 0
+  else if changed then
+    Spec.V3.roundup (Spec.V3.roundup (min (Spec.V3.r 108 100 * (mimp + mexpl)) 10) * Spec.V3.temporalFactor a)
+  else Spec.V3.roundup (Spec.V3.roundup (min (mimp + mexpl) 10) * Spec.V3.temporalFactor a)
+
+theorem environmentalScoreP_zero (minor : Nat) (a : Str → Str) :
+    environmentalScoreP minor a 0 = Spec.V3.environmentalScore minor a := by
+  simp only [environmentalScoreP, Spec.V3.environmentalScore, ite_self, add_zero]
+
+/-- all (modified impact, exploitability) pairs pass the margin test, for either formula -/
+theorem env_ok (minor : Nat) {m av ac pr ui : Rat} (hm : m ∈ missVals)
+    (h1 : av ∈ rowVals c!"AV") (h2 : ac ∈ rowVals c!"AC") (h3 : pr ∈ prVals) (h4 : ui ∈ rowVals c!"UI") :
+    okPair (Spec.V3.modifiedImpact minor true m) (explOf av ac pr ui) = true := by
+  by_cases h0 : minor = 0
+  · subst h0
+    have h := envCheck0_ok
+    unfold envCheck at h
+    simp only [List.all_eq_true] at h
+    exact explAll_spec (h m hm) h1 h2 h3 h4
+  · rw [modifiedImpact_minor h0]
+    have h := envCheck1_ok
+    unfold envCheck at h
+    simp only [List.all_eq_true] at h
+    exact explAll_spec (h m hm) h1 h2 h3 h4
+
+/-- the Changed-scope branch of `environmentalScoreP`, in the shape of `Lemmas.Robust.core_robust` -/
+theorem environmentalScoreP_changed (minor : Nat) (a : Str → Str)
+    (hs : Spec.V3.eff a c!"MS" c!"S" = c!"C") (ε : Rat) :
+    environmentalScoreP minor a ε =
+      (if Spec.V3.modifiedImpact minor true
+            (missOf (Spec.V3.w c!"C" (Spec.V3.eff a c!"MC" c!"C") * Spec.V3.w c!"CR" (a c!"CR"))
+              (Spec.V3.w c!"I" (Spec.V3.eff a c!"MI" c!"I") * Spec.V3.w c!"IR" (a c!"IR"))
+              (Spec.V3.w c!"A" (Spec.V3.eff a c!"MA" c!"A") * Spec.V3.w c!"AR" (a c!"AR"))) + ε ≤ 0 then (0 : Rat)
+       else (fun x => Spec.V3.roundup (x * Spec.V3.temporalFactor a))
+        (Spec.V3.roundup (min (Spec.V3.r 108 100 *
+          (Spec.V3.modifiedImpact minor true
+            (missOf (Spec.V3.w c!"C" (Spec.V3.eff a c!"MC" c!"C") * Spec.V3.w c!"CR" (a c!"CR"))
+              (Spec.V3.w c!"I" (Spec.V3.eff a c!"MI" c!"I") * Spec.V3.w c!"IR" (a c!"IR"))
+              (Spec.V3.w c!"A" (Spec.V3.eff a c!"MA" c!"A") * Spec.V3.w c!"AR" (a c!"AR"))) + ε +
+           explOf (Spec.V3.w c!"AV" (Spec.V3.eff a c!"MAV" c!"AV")) (Spec.V3.w c!"AC" (Spec.V3.eff a c!"MAC" c!"AC"))
+              (Spec.V3.prWeight true (Spec.V3.eff a c!"MPR" c!"PR"))
+              (Spec.V3.w c!"UI" (Spec.V3.eff a c!"MUI" c!"UI")))) 10))) := by
+  have hd : decide (Spec.V3.eff a c!"MS" c!"S" = c!"C") = true := decide_eq_true hs
+  unfold environmentalScoreP
+  simp only [hd, if_pos hs]
+  rfl
+
+/-- ENVIRONMENTAL: likewise, for both minor versions' formulas -/
+theorem v3_env_decimal_robust (minor : Nat) (a : Str → Str) (ha : Legal3 a) (ε : Rat) (hε : -(1 / 10000000) ≤ ε ∧ ε ≤ 1 / 10000000) :
+    environmentalScoreP minor a ε = Spec.V3.environmentalScore minor a := by
+  rw [← environmentalScoreP_zero]
+  by_cases hs : Spec.V3.eff a c!"MS" c!"S" = c!"C"
+  · rw [environmentalScoreP_changed minor a hs ε, environmentalScoreP_changed minor a hs 0]
+    simp only [add_zero]
+    exact core_robust
+      (env_ok minor
+        (miss_mem
+          (prodC_mem (legal_eff_w ha (M := c!"MC") (by decide) rfl (by decide)) (legal_w ha (by decide)))
+          (prodI_mem (legal_eff_w ha (M := c!"MI") (by decide) rfl (by decide)) (legal_w ha (by decide)))
+          (prodA_mem (legal_eff_w ha (M := c!"MA") (by decide) rfl (by decide)) (legal_w ha (by decide))))
+        (legal_eff_w ha (M := c!"MAV") (by decide) rfl (by decide))
+        (legal_eff_w ha (M := c!"MAC") (by decide) rfl (by decide))
+        (prWeight_mem (legal_eff_pr ha))
+        (legal_eff_w ha (M := c!"MUI") (by decide) rfl (by decide)))
+      hε.1 hε.2 (fun x => Spec.V3.roundup (x * Spec.V3.temporalFactor a))
+  · unfold environmentalScoreP
+    simp only [if_neg hs]
 
 end Cvss.Props.C19
